@@ -17,6 +17,7 @@ FUEL = 400
 #      | ("batch", ss) | ("untrack", ss) | ("component", ss) | ("oncleanup", l, ss) | ("provide", ty, e)
 #      | ("usectx", ty) | ("runin", x, ss) | ("track", x) | ("if", e, ss, ss) | ("cellnew", c, e)
 #      | ("cellset", c, e) | ("log", e)
+#      | ("providein", x, ty, ("lit", v), ss)   provide_context_in_new_scope; for the model: a scope x that first provides
 # body = ("body", None | [x..], ss, e)
 
 def sx_expr(e):
@@ -47,6 +48,8 @@ def sx_stmt(s):
         return "(selector %d %d %s)" % (s[1], s[2], sx_body(s[3]))
     if k in ("scope", "oncleanup", "runin"):
         return "(%s %d %s)" % (k, s[1], sx_stmts(s[2]))
+    if k == "providein":
+        return "(providein %d %d %s %s)" % (s[1], s[2], sx_expr(s[3]), sx_stmts(s[4]))
     if k in ("curscope", "dispose", "usectx", "track"):
         return "(%s %d)" % (k, s[1])
     if k in ("batch", "untrack", "component"):
@@ -97,6 +100,8 @@ def cq_stmt(s):
         return "SEffect %d %s" % (s[1], cq_body(s[2]))
     if k == "selector":
         return "SSelector %d %s %s" % (s[1], cq_z(s[2]), cq_body(s[3]))
+    if k == "providein":
+        return "SScope %d %s" % (s[1], cq_stmts([("provide", s[2], s[3])] + s[4]))
     n2 = {"scope": "SScope", "oncleanup": "SOnCleanup", "runin": "SRunIn"}
     if k in n2:
         return "%s %d %s" % (n2[k], s[1], cq_stmts(s[2]))
@@ -264,6 +269,8 @@ def computations(ss, acc=None, depth=0):
             computations(s[3][2], acc, depth + 1)
         elif k in ("scope", "oncleanup", "runin"):
             computations(s[2], acc, depth + (1 if k == "oncleanup" else 0))
+        elif k == "providein":
+            computations(s[4], acc, depth)
         elif k in ("batch", "untrack", "component"):
             computations(s[1], acc, depth)
         elif k == "if":
